@@ -13,6 +13,7 @@ CONSTANTS
   Solve2Modes <- Solve2OK
   Progbars <- PbOff
   Progbar0Modes <- PbOK
+  IntRepeatModes <- IrOK
   PrintCases = TRUE
 INVARIANT CaseOut
 CHECK_DEADLOCK FALSE
